@@ -35,6 +35,9 @@ type entry struct {
 	name     string
 	usesName bool // a is used as a field name (a hostile name may legitimately drop the field)
 	run      func(a, b string) []byte
+	// inStartLine: the input is part of the start line (method, host of an absolute-form or CONNECT
+	// target): the start line may differ from the benign twin's, but it must stay one line
+	inStartLine bool
 }
 
 func writeReq(req *protocol.Request) []byte {
@@ -98,13 +101,32 @@ func finishCtx(ctx *app.RequestContext) []byte {
 }
 
 func reqEntry(name string, usesName bool, f func(req *protocol.Request, a, b string)) entry {
-	return entry{name, usesName, func(a, b string) []byte { r := newReq(); f(r, a, b); return finishReq(r) }}
+	return entry{name: name, usesName: usesName, run: func(a, b string) []byte { r := newReq(); f(r, a, b); return finishReq(r) }}
+}
+func startLine(e entry) entry {
+	e.inStartLine = true
+	return e
+}
+
+func proxyEntry(name string, f func(req *protocol.Request, a, b string)) entry {
+	return entry{name: name, inStartLine: true, run: func(a, b string) []byte {
+		r := newReq()
+		f(r, a, b)
+		r.Header.Set("X-After", "2")
+		var buf bytes.Buffer
+		w := network.NewWriter(&buf)
+		if err := reqI.ProxyWrite(r, w); err != nil {
+			return []byte("WRITE-ERROR: " + err.Error())
+		}
+		w.Flush() //nolint:errcheck
+		return buf.Bytes()
+	}}
 }
 func respEntry(name string, usesName bool, f func(resp *protocol.Response, a, b string)) entry {
-	return entry{name, usesName, func(a, b string) []byte { r := newResp(); f(r, a, b); return finishResp(r) }}
+	return entry{name: name, usesName: usesName, run: func(a, b string) []byte { r := newResp(); f(r, a, b); return finishResp(r) }}
 }
 func ctxEntry(name string, usesName bool, f func(ctx *app.RequestContext, a, b string)) entry {
-	return entry{name, usesName, func(a, b string) []byte { c := newCtx(); f(c, a, b); return finishCtx(c) }}
+	return entry{name: name, usesName: usesName, run: func(a, b string) []byte { c := newCtx(); f(c, a, b); return finishCtx(c) }}
 }
 
 func entries() []entry {
@@ -114,8 +136,12 @@ func entries() []entry {
 		reqEntry("RequestHeader.Add", true, func(r *protocol.Request, a, b string) { r.Header.Add(a, b) }),
 		reqEntry("RequestHeader.SetBytesKV", true, func(r *protocol.Request, a, b string) { r.Header.SetBytesKV([]byte(a), []byte(b)) }),
 		reqEntry("RequestHeader.SetCanonical", true, func(r *protocol.Request, a, b string) { r.Header.SetCanonical([]byte(a), []byte(b)) }),
-		reqEntry("RequestHeader.SetArgBytes", true, func(r *protocol.Request, a, b string) { r.Header.SetArgBytes([]byte(a), []byte(b), protocol.ArgsHasValue) }),
-		reqEntry("RequestHeader.AddArgBytes", true, func(r *protocol.Request, a, b string) { r.Header.AddArgBytes([]byte(a), []byte(b), protocol.ArgsHasValue) }),
+		reqEntry("RequestHeader.SetArgBytes", true, func(r *protocol.Request, a, b string) {
+			r.Header.SetArgBytes([]byte(a), []byte(b), protocol.ArgsHasValue)
+		}),
+		reqEntry("RequestHeader.AddArgBytes", true, func(r *protocol.Request, a, b string) {
+			r.Header.AddArgBytes([]byte(a), []byte(b), protocol.ArgsHasValue)
+		}),
 		reqEntry("RequestHeader.SetCookie", false, func(r *protocol.Request, a, b string) { r.Header.SetCookie(a, b) }),
 		reqEntry("RequestHeader.SetCookie-twice", false, func(r *protocol.Request, a, b string) { r.Header.SetCookie("first", "1"); r.Header.SetCookie(a, b) }),
 		reqEntry("RequestHeader.Set(Cookie)", false, func(r *protocol.Request, a, b string) { r.Header.Set("Cookie", a+"="+b) }),
@@ -130,6 +156,14 @@ func entries() []entry {
 		reqEntry("RequestHeader.Set(Trailer)", false, func(r *protocol.Request, a, b string) { r.Header.Set("Trailer", b) }),
 		reqEntry("RequestHeader.Trailer.Set", true, func(r *protocol.Request, a, b string) { r.Header.Trailer().Set(a, b) }), //nolint:errcheck
 		reqEntry("RequestHeader.Trailer.Add", true, func(r *protocol.Request, a, b string) { r.Header.Trailer().Add(a, b) }), //nolint:errcheck
+		// ---- the start line: method, and the host that a proxied request (absolute-form target) or a
+		// CONNECT request carries in its target
+		proxyEntry("Request.SetHost-after-URI-parsed+ProxyWrite", func(r *protocol.Request, a, b string) { r.URI(); r.SetHost(b) }),
+		proxyEntry("Request.URI().SetHost+ProxyWrite", func(r *protocol.Request, a, b string) { r.URI().SetHost(b) }),
+		proxyEntry("RequestHeader.SetHost+ProxyWrite", func(r *protocol.Request, a, b string) { r.Header.SetHost(b) }),
+		reqEntry("Request.SetHost-after-URI-parsed", false, func(r *protocol.Request, a, b string) { r.URI(); r.SetHost(b) }),
+		startLine(reqEntry("Request.SetHost+CONNECT", false, func(r *protocol.Request, a, b string) { r.Header.SetMethod("CONNECT"); r.URI(); r.SetHost(b) })),
+		startLine(reqEntry("RequestHeader.SetMethod", false, func(r *protocol.Request, a, b string) { r.Header.SetMethod(b) })),
 		// ---- Request
 		reqEntry("Request.SetHeader", true, func(r *protocol.Request, a, b string) { r.SetHeader(a, b) }),
 		reqEntry("Request.SetHeaders", true, func(r *protocol.Request, a, b string) { r.SetHeaders(map[string]string{a: b}) }),
@@ -144,8 +178,12 @@ func entries() []entry {
 		respEntry("ResponseHeader.Add", true, func(r *protocol.Response, a, b string) { r.Header.Add(a, b) }),
 		respEntry("ResponseHeader.SetBytesV", true, func(r *protocol.Response, a, b string) { r.Header.SetBytesV(a, []byte(b)) }),
 		respEntry("ResponseHeader.SetCanonical", true, func(r *protocol.Response, a, b string) { r.Header.SetCanonical([]byte(a), []byte(b)) }),
-		respEntry("ResponseHeader.SetArgBytes", true, func(r *protocol.Response, a, b string) { r.Header.SetArgBytes([]byte(a), []byte(b), protocol.ArgsHasValue) }),
-		respEntry("ResponseHeader.AddArgBytes", true, func(r *protocol.Response, a, b string) { r.Header.AddArgBytes([]byte(a), []byte(b), protocol.ArgsHasValue) }),
+		respEntry("ResponseHeader.SetArgBytes", true, func(r *protocol.Response, a, b string) {
+			r.Header.SetArgBytes([]byte(a), []byte(b), protocol.ArgsHasValue)
+		}),
+		respEntry("ResponseHeader.AddArgBytes", true, func(r *protocol.Response, a, b string) {
+			r.Header.AddArgBytes([]byte(a), []byte(b), protocol.ArgsHasValue)
+		}),
 		respEntry("ResponseHeader.SetContentType", false, func(r *protocol.Response, a, b string) { r.Header.SetContentType(b) }),
 		respEntry("ResponseHeader.SetContentTypeBytes", false, func(r *protocol.Response, a, b string) { r.Header.SetContentTypeBytes([]byte(b)) }),
 		respEntry("ResponseHeader.SetContentEncoding", false, func(r *protocol.Response, a, b string) { r.Header.SetContentEncoding(b) }),
@@ -202,14 +240,14 @@ func entries() []entry {
 // the trailer section of a chunked message is a header block too
 func trailerEntries() []entry {
 	return []entry{
-		{"RequestHeader.Trailer.Header", true, func(a, b string) []byte {
+		{name: "RequestHeader.Trailer.Header", usesName: true, run: func(a, b string) []byte {
 			var h protocol.RequestHeader
 			h.Trailer().Set("X-Before", "1") //nolint:errcheck
 			h.Trailer().Set(a, b)            //nolint:errcheck
 			h.Trailer().Set("X-After", "2")  //nolint:errcheck
 			return append([]byte("TRAILER-SECTION\r\n"), append(h.Trailer().Header(), "BODY-BYTES"...)...)
 		}},
-		{"ResponseHeader.Trailer.Header", true, func(a, b string) []byte {
+		{name: "ResponseHeader.Trailer.Header", usesName: true, run: func(a, b string) []byte {
 			var h protocol.ResponseHeader
 			h.Trailer().Set("X-Before", "1") //nolint:errcheck
 			h.Trailer().Add(a, b)            //nolint:errcheck
@@ -332,7 +370,7 @@ func check(e entry, a, b string) (string, string) {
 	if h.err != "" {
 		return "violation", fmt.Sprintf("%s: serialised message is not a clean header block: %s\nmessage: %q", id, h.err, hostile)
 	}
-	if h.start != tw.start {
+	if h.start != tw.start && !e.inStartLine {
 		return "violation", fmt.Sprintf("%s: start line changed: %q vs benign twin %q", id, h.start, tw.start)
 	}
 	if h.body != tw.body {
